@@ -46,6 +46,10 @@ def run(tier):
     for ty in FIELD4:
         comparisons(chk, F, ty)
         selections(chk, F, ty)
+        from . import c11
+        imps = F.impls_of("RealField", ty)
+        if len(imps) == 1:
+            c11.copysign_rule(chk, F, ty, imps[0], tag="select")
     float_instances(chk, F)
     chk.floor("operations dependency-analysed", chk.analysed.get("operations dependency-analysed", 0), 8 * 60)
     chk.floor("comparison items", chk.analysed.get("comparison items", 0), 20)
@@ -243,14 +247,44 @@ def re_forms(chk, F, ty):
             chk.undecide("re|%s|%s" % (ty, name), "unsupported: %s" % ex, body_loc(F, body))
 
 
+REF_PRED = {
+    "is_zero": lambda v: v == 0, "is_one": lambda v: v == 1, "is_positive": lambda v: v > 0, "is_negative": lambda v: v < 0,
+    "is_sign_positive": lambda v: v >= 0, "is_sign_negative": lambda v: v < 0, "is_finite": None,
+}
+
+
 def single_pred_forward(chk, F, key, body, sp, pred, operand="a"):
-    paths = run_paths(F, body, lambda: [sp.operand(operand)])
-    xk = Poly.var("%s.re" % operand).key()
-    ok = len(paths) == 2 and all(
-        len(c.trace) == 1 and c.trace[0][0] == ("pred", pred, xk) and isinstance(unref(v), BoolV) and unref(v).b == c.trace[0][2]
-        for c, v, _, _ in paths)
-    chk.ob(key, ok, "%s forwards to the same predicate of the real part" % pred, body_loc(F, body),
-           found=[path_descr(c) for c, _, _, _ in paths], required="%s(%s.re)" % (pred, operand), nontrivial=False)
+    """the predicate is decided by the real part only and agrees with the same predicate of the real part on every sign / value
+    case (the decisions may be the predicate itself or an equivalent comparison of the real part with a constant)"""
+    from .c01 import guard_on_re_only
+    xa = ("v", "%s.re" % operand, ())
+    ref = REF_PRED.get(pred)
+    bad = []
+    if ref is None:
+        paths = run_paths(F, body, lambda: [sp.operand(operand)])
+        xk = Poly.var("%s.re" % operand).key()
+        ok = len(paths) == 2 and all(
+            len(c.trace) == 1 and c.trace[0][0] == ("pred", pred, xk) and isinstance(unref(v), BoolV) and unref(v).b == c.trace[0][2]
+            for c, v, _, _ in paths)
+        chk.ob(key, ok, "%s forwards to the same predicate of the real part" % pred, body_loc(F, body),
+               found=[path_descr(c) for c, _, _, _ in paths], required="%s(%s.re)" % (pred, operand), nontrivial=False)
+        chk.count("predicate items")
+        return
+    for v in (Fr(-2), Fr(-1), Fr(0), Fr(1), Fr(2)):
+        env = {xa: v, ("c", "EPS"): EPS_VALUE}
+        paths = run_paths(F, body, lambda: [sp.operand(operand)], oracle=sample_oracle(env))
+        for c, val, _, _ in paths:
+            for (k, d, b, forced) in c.trace:
+                if not guard_on_re_only(k):
+                    bad.append("decision on a derivative part: %s" % d)
+        if len(paths) != 1:
+            bad.append("at re = %s the result is not determined by the real part (%d paths)" % (v, len(paths)))
+            continue
+        r = unref(paths[0][1])
+        if not isinstance(r, BoolV) or r.b != ref(v):
+            bad.append("at re = %s returns %r, the predicate of the real part is %s" % (v, r, ref(v)))
+    chk.ob(key, not bad, "%s is decided by the real part only and equals %s of the real part" % (pred, pred), body_loc(F, body),
+           found=sorted(set(bad))[:4] or "agrees on all sign cases", required="%s(%s.re)" % (pred, operand), nontrivial=False)
     chk.count("predicate items")
 
 
